@@ -13,7 +13,7 @@ def run_c01(ctx):
     depth = 1 if quick else 2
     for mode in ("pre", "eff"):
         ctx.mc("MC_Grammar", {"Mode": f'"{mode}"', "Depth": depth, "NVals": 2}, ["Classified", "ReadBack", "NoBadNodes"],
-               label=f"MC_Grammar:{mode}", timeout=1500)
+               label=f"MC_Grammar:{mode}", timeout=3600)
     cases = []
     for mode in ("pre", "eff"):
         gf = ctx.work / f"gen_domain_{mode}.ndjson"
